@@ -86,6 +86,24 @@ def srvOk : Int → List SOut → Bool
      | none => srvOk 0 t)
   | o, _ :: t => srvOk o t
 
+/-- What the property demands of one observed reaction to one API call: a request that
+    goes out carries exactly the caller's count and blocking flag (so a count outside
+    0..65535 — which no wire message can carry, see `srvOk` — can only be refused, never
+    truncated), and RequestTxs asks for what it was given. -/
+def srvDemand (a : SAct) (o : SOut) : Bool :=
+  match a, o with
+  | .reqIds b req _, .wire _ rq b' _ => decide ((rq : Int) = req) && (b' == b)
+  | .reqIdsDone req, .wire _ rq b' _ => decide ((rq : Int) = req) && b'
+  | .reqTxs k, .txs k' _ => k' == k
+  | .reqTxs _, _ => false
+  | _, .txs .. => false
+  | _, .refused => true
+
+def srvDemands : List SAct → List SOut → Bool
+  | a :: as, o :: os => srvDemand a o && srvDemands as os
+  | _, [] => true
+  | [], _ :: _ => false
+
 /-! ### Outbound side (Client) -/
 
 /-- A CBOR integer as it appears on the wire (major type 0 or 1). -/
